@@ -1,5 +1,6 @@
 import Verif.Model.Line
 import Verif.Model.Dst
+import Verif.Model.Num
 import Verif.Driver.Util
 namespace Verif.Driver
 open Verif.Line
@@ -29,6 +30,11 @@ def handleLine (fs : List (List String)) : Option String :=
      | .metaL, some (k, v) => some ("K " ++ show_ k ++ " , " ++ show_ v)
      | .metaL, none => some "ERR"
      | _, _ => some "NOTMETA")
+  | [["intrender"], [n]] =>
+    some ("L " ++ " ".intercalate ((Verif.Num.renderInt (int! n)).map toString))
+  | [["intparse"], cps] =>
+    some (match Verif.Num.parseInt (cps.map nat!) with | some v => s!"I {v}" | none => "none")
+  | [["intparse"]] => some (match Verif.Num.parseInt [] with | some v => s!"I {v}" | none => "none")
   | [["scorerwrite"], ch, vals] =>
     some ("L " ++ " ".intercalate ((scorerLine (ch.map nat!) (splitLines vals)).map toString))
   | [["scorerread"], line] =>
